@@ -232,8 +232,20 @@ def run_impl(prop, cases, procs=14):
     if getattr(prop, 'SERIAL', False) or len(cases) < 8:
         _init_worker(prop.__name__)
         return [_impl_worker(c) for c in cases]
+    # one task per case with a time limit: if the implementation kills its worker process (a crash inside a C extension, the OOM killer)
+    # or never returns, that case is reported as such instead of the whole run hanging on a lost task
+    limit = float(os.environ.get('VERIF_CASE_TIMEOUT', getattr(prop, 'CASE_TIMEOUT', 300)))
+    outs, lost = [], 0
     with mp.get_context('fork').Pool(procs, initializer=_init_worker, initargs=(prop.__name__,)) as pool:
-        return pool.map(_impl_worker, cases, chunksize=max(1, len(cases) // (procs * 8)))
+        handles = [pool.apply_async(_impl_worker, (c,)) for c in cases]
+        for h in handles:
+            try:
+                outs.append(h.get(timeout=limit if lost == 0 else 5.0))
+            except mp.TimeoutError:
+                lost += 1
+                outs.append({'error': 'NoResult', 'msg': f'the implementation did not return within {limit:.0f} s (worker process died or hung)', 'tb': ''})
+        pool.terminate()
+    return outs
 
 
 # ---------------------------------------------------------------- known findings
@@ -320,6 +332,8 @@ def main(argv):
     cases.extend(prop.gen_cases(rng, tier))
     log(f'[{pid}] {len(cases)} cases ({n_corpus} corpus), running implementation ...')
     outs = run_impl(prop, cases)
+    if hasattr(prop, 'cleanup'):
+        prop.cleanup()           # scratch files of worker processes that did not live to remove them
 
     # 4. oracle on implementation outputs
     hist = {}
